@@ -395,6 +395,8 @@ class ArgumentParser:
                 ):
                     default_value = kwargs.pop("default")
                     flag_name = option["flags"][0]
+                    if isinstance(default_value, str):
+                        default_value = [default_value]
                     namespace._passes[flag_name] = list(default_value)
             parser.add_argument(*option["flags"], **kwargs)
 
